@@ -49,6 +49,10 @@ CALLS = [
     ("format", {"select": [{"value": "order"}, {"value": "t.my col"}, {"value": "a"}], "from": "select"}, {"should_quote": "never"}),
     ("parse_mysql", "select a+b-c", {}),
     ("parse", "select a+b-c", {"null": None, "all_columns": "*"}),
+    # deeply nested input (the interpreter's recursion limit is process-wide state)
+    ("parse", "select " + "(" * 75 + "1" + ")" * 75, {}),
+    ("parse", "select " + "(" * 160 + "1" + ")" * 160, {}),
+    ("parse", "select " + "f(" * 60 + "1" + ")" * 60, {}),
 ]
 
 
@@ -77,11 +81,19 @@ def run(c):
     if kw.get("should_quote") == "never": kw["should_quote"] = lambda s: False
     try:
         r = getattr(M, fn)(arg, **kw)
-        return ["ok", json.loads(json.dumps(r, default=lambda o: "<<%s>>" % type(o).__name__))]
+        out = ["ok", json.loads(json.dumps(r, default=lambda o: "<<%s>>" % type(o).__name__))]
     except ParseException as e:
-        return ["pe", getattr(e, "start", None)]
+        out = ["pe", getattr(e, "start", None)]
     except Exception as e:
-        return ["exc", type(e).__name__]
+        out = ["exc", type(e).__name__]
+    st = state()
+    if st != STATE0:
+        out.append({"process_state_changed": [STATE0, st]})
+    return out
+import os, decimal, locale
+def state():
+    return [sys.getrecursionlimit(), sys.getswitchinterval(), os.getcwd(), len(warnings.filters), str(decimal.getcontext().prec), locale.setlocale(locale.LC_ALL, None), len(os.environ)]
+STATE0 = state()
 print(json.dumps([run(c) for c in calls]))
 '''
 
